@@ -7,7 +7,7 @@ use linfa::{
     traits::{Predict, PredictInplace},
     ParamGuard,
 };
-use ndarray::{Array1, Array2, ArrayBase, ArrayView1, ArrayView2, Data, Ix1, Ix2};
+use ndarray::{Array1, Array2, ArrayBase, ArrayView1, ArrayView2, Axis, Data, Ix1, Ix2};
 use std::cmp::Ordering;
 
 use super::error::{Result, SvmError};
@@ -160,6 +160,20 @@ pub fn fit_nu<F: Float>(
     // the explicit hyperplane of the linear kernel carries the same scaling as the coefficients
     if let SeparatingHyperplane::Linear(ref mut w) = res.sep_hyperplane {
         w.mapv_inplace(|x| x / r);
+    }
+    // the solver selected the support vectors by the size of the coefficients before they were divided by `r`;
+    // `weighted_sum` zips the stored vectors with the coefficients that exceed the same threshold after the
+    // division, so the stored vectors have to be the samples of exactly those coefficients
+    if let SeparatingHyperplane::WeightedCombination(_) = res.sep_hyperplane {
+        let indices = res
+            .alpha
+            .iter()
+            .enumerate()
+            .filter(|(_, a)| a.abs() > F::cast(100.) * F::epsilon())
+            .map(|(i, _)| i)
+            .collect::<Vec<_>>();
+        res.sep_hyperplane =
+            SeparatingHyperplane::WeightedCombination(dataset.select(Axis(0), &indices));
     }
 
     res
